@@ -29,12 +29,16 @@ REQUIRED_THEOREMS = [
     'C06_truncGauss_support_counterexample', 'C06_composed_entry', 'C06_plan_length',
     'C06_composed_plan_block', 'C06_composed_requests_disjoint', 'C06_entry_reads_own_requests',
     'C06_covariate_row', 'C06_composed_independent', 'C06_pop_block_law', 'C06_covariate_row_law',
-    'C06_composed_blocks_independent',
+    'C06_composed_blocks_independent', 'C06_composed_joint_law', 'C06_composed_columns_cover',
+    'C06_hetero_transform', 'C06_hetero_transform_counterexample', 'C06_hetero_transform_partial',
+    'C06_hetero_transform_legacy_counterexample',
     'C06_lognormal_moments', 'C06_truncGauss_moments']
 RULE = ('exact replay: (a) the four error models and ReducedErrorModel, n_times 1..6, n_samples None/1..5, '
         'int seed and Generator seed (two consecutive calls on one Generator); (b) elementary population '
         'models (Gaussian / LogNormal centred and not, TruncatedGaussian, Pooled, Heterogeneous) n_dim 1..3, '
-        'CovariatePopulationModel around each, ComposedPopulationModel of 1..4 of them, '
+        '(flat and (p_per_dim, n_dim) parameter layout), CovariatePopulationModel around each, '
+        'ComposedPopulationModel of 1..4 of them (several covariate sub-models with different covariates), '
+        'negative / zero scales and wrong parameter counts as modelled error paths, '
         'ReducedPopulationModel; compute_individual_parameters of the sampled eta; get_mean_and_std. '
         'non-trivial = n_times>=2 and n_samples>=2 (error models), n_dim>=2 or >=2 sub-models or a '
         'covariate model (population models); distinct = distinct (class, sizes, seed kind)')
@@ -48,7 +52,9 @@ ASSUMPTIONS = [
     'distribution checks on chi (KS by the DKW bound, moments at 6.5-8 standard errors, n >= 20000) are '
     'supporting evidence only',
     'norm.pdf / norm.cdf of scipy are the standard normal pdf / cdf',
-    'HeterogeneousModel.compute_individual_parameters after sample (n_samples != n_ids) is C15\'s concern']
+    'HeterogeneousModel.sample followed by compute_individual_parameters: the model carries the legacy, '
+    'the repaired (code as it is: drawn rows unless exactly n_ids rows were drawn) and the intended variant; '
+    'chi is compared with the repaired one']
 
 EM = ['G', 'M', 'CM', 'LN']
 EM_TAG = {'G': 'GaussianErrorModel', 'M': 'MultiplicativeGaussianErrorModel',
@@ -157,15 +163,27 @@ def call(f):
 
 
 def compare(ctx, label, c, mo, inp, cls):
-    """exact-replay comparison. Outside the support (negative scale: numpy / chi raise, the model
-    says valueError) the property says nothing; there only `chi raised => model raised` is compared and
-    a silent chi is recorded as a note."""
-    if isinstance(mo, str) and not isinstance(c, str) and 'n_params' not in cls:
-        note = 'outside the support the model raises but chi returned samples (%s); not constrained by C06' % label
-        if note not in ctx.notes:
-            ctx.notes.append(note)
-        return True
+    """exact-replay comparison, including the modelled error path: chi raises ValueError exactly where
+    the model returns `valueError` (wrong parameter count; a negative scale — chi's own guards in the
+    population models, numpy's `scale < 0` / `sigma < 0` in the error models; `<= 0` for the centred
+    log-normal population model)"""
     return ctx.agree(label, as_rows(c), mo, inp)
+
+
+def outside_support(ctx, tag, c, ll_of_samples, inp):
+    """the property at a parameter vector OUTSIDE the support: the log-likelihood scores every value
+    with -inf there (there is no density), so a sampler that returns values draws from a distribution
+    the log-likelihood does not score"""
+    if isinstance(c, str):
+        ctx.spec('C06.no_samples_outside_support/' + tag, True, inp)
+        return
+    try:
+        with np.errstate(all='ignore'):
+            ll = float(ll_of_samples(np.asarray(c, float)))
+    except Exception as e:  # noqa
+        ll = core.errkind(e)
+    ctx.spec('C06.no_samples_outside_support/' + tag, not (ll == -math.inf), inp,
+             {'chi_returned_samples_with_log_likelihood': ll})
 
 
 def as_rows(x):
@@ -229,6 +247,9 @@ def run_em_case(ctx, chi, rng, i):
     if not isinstance(c, str):
         ctx.spec('C06.shape/' + EM_TAG[m], np.asarray(c).shape == (len(yb), nS), inp,
                  {'shape': np.asarray(c).shape})
+    if cls.startswith('sigma<0') and len(yb) > 0:
+        outside_support(ctx, EM_TAG[m], c,
+                        lambda x: em.compute_log_likelihood(list(sig), yb, x[:, 0]), inp)
     if cls in ('inside', 'sigma=0', 'inside+ybar<=0'):
         ctx.spec('C06.sampling_succeeds/' + EM_TAG[m], not isinstance(c, str), inp, {'chi': c if isinstance(c, str) else 'ok'})
     # a Generator passed as seed is advanced, not restarted: two consecutive calls
@@ -387,9 +408,14 @@ def gen_cov(rng, n_cov_tot, nS):
 
 
 def psi_check(ctx, chi, mode, obj, subs, n_ids, params, cov, cov_rows, eta, inp, label):
-    """compute_individual_parameters of the sampled eta (no heterogeneous sub-model)"""
-    if any(s.kind == 'H' for s in subs) or isinstance(eta, str) or len(eta) == 0:
+    """compute_individual_parameters of the sampled eta. For a heterogeneous sub-model the Lean model
+    carries both variants (legacy: the stored rows are returned whatever was drawn; intended: the drawn
+    rows); the harness decides which one chi matches."""
+    if isinstance(eta, str) or len(eta) == 0:
         return
+    has_h = any(s.kind == 'H' for s in subs)
+    if has_h and (mode == 'cov' or any(s.kind == 'H' and s.n_cov for s in subs)):
+        return   # covariate-wrapped heterogeneous model: the transform is C07's / C15's concern
     eta = np.asarray(eta, float)
     if mode == 'elem':
         c = call(lambda: obj.compute_individual_parameters(np.asarray(params), eta))
@@ -398,9 +424,36 @@ def psi_check(ctx, chi, mode, obj, subs, n_ids, params, cov, cov_rows, eta, inp,
         c = call(lambda: obj.compute_individual_parameters(np.asarray(params), eta, covariates=cv)
                  if mode == 'composed' else obj.compute_individual_parameters(np.asarray(params), eta, cv))
     rows = cov_rows if len(cov_rows) != 1 else cov_rows * len(eta)
-    mo = ctx.model('C06.pop.psi', mode, [s.wire() for s in subs], n_ids, [float(v) for v in params],
-                   [[float(v) for v in r] for r in rows], as_rows(eta))[0]
-    ctx.agree('C06.pop.psi/' + label, as_rows(c), mo, inp)
+
+    def model(variant):
+        return ctx.model('C06.pop.psi', mode, [s.wire() for s in subs], n_ids, [float(v) for v in params],
+                         [[float(v) for v in r] for r in rows], as_rows(eta), variant)[0]
+    cr = as_rows(c)
+    # the code as it is (7e1e7bd): drawn rows are handed on unless exactly n_ids rows were drawn
+    ctx.agree('C06.pop.psi/' + label + ('/hetero' if has_h else ''), cr, model('repaired'), inp)
+    if not has_h:
+        return
+    # the property: the individuals handed on are the individuals sample() drew
+    hcols = []
+    col = 0
+    for sm in subs:
+        if sm.kind == 'H':
+            hcols += list(range(col, col + sm.n_dim))
+        col += sm.n_dim
+    if isinstance(cr, str) or len(cr) != len(eta):
+        ok = False
+    else:
+        ok = core.close([[row[j] for j in hcols] for row in cr], [[float(row[j]) for j in hcols] for row in eta])
+    detail = {'heterogeneous_columns': hcols, 'sampled': as_rows(eta), 'after_compute_individual_parameters': cr}
+    if len(eta) != n_ids:
+        ctx.spec('C06.sample_then_transform/HeterogeneousModel', ok, inp, detail)
+        return
+    tally = ctx.extra.setdefault('hetero_sample_then_transform_n_samples=n_ids', {'holds': 0, 'fails': 0})
+    tally['holds' if ok else 'fails'] += 1
+    if ok or tally['fails'] <= 5:
+        # (a known finding must not flood the bounded list of recorded failures: the first five
+        # failing inputs are recorded, the rest only counted)
+        ctx.spec('C06.sample_then_transform/HeterogeneousModel/n_samples=n_ids', ok, inp, detail)
 
 
 def run_pop_case(ctx, chi, rng, i):
@@ -457,7 +510,12 @@ def run_pop_case(ctx, chi, rng, i):
     nontriv = (mode != 'elem' and (len(subs) >= 2 or n_cov_tot > 0)) or subs[0].n_dim >= 2
     ctx.case('pop/%s/%s' % (mode, cls), nontrivial=('pop/%s/nS%s/%s' % (label, n, cls)) if nontriv else False,
              sample=inp)
-    c = call(lambda: chi_pop_sample(obj, mode, params, n, seed, cov))
+    chi_params = params
+    if mode == 'elem' and cls != 'n_params' and rng.random() < 0.3:
+        # documented alternative layout (p_per_dim, n_dim)
+        chi_params = np.asarray(params).reshape(per_dim(subs[0].kind, n_ids), subs[0].n_dim)
+        inp['layout'] = 'matrix'
+    c = call(lambda: chi_pop_sample(obj, mode, chi_params, n, seed, cov))
     mo, plan = pop_model(ctx, mode, subs, n_ids, n, params, cov_rows, seed,
                          np.random.default_rng(seed), from_gen=False)
     ctx.branches.add('pop:%s:%s' % (mode, 'err' if isinstance(mo, str) else 'ok'))
@@ -468,6 +526,11 @@ def run_pop_case(ctx, chi, rng, i):
             ctx.agree('C06.pop.sample-raises/' + mode, True, isinstance(mo, str), inp)
             return
     compare(ctx, 'C06.pop.sample/' + mode, c, mo, inp, cls)
+    if cls == 'scale<=0' and isinstance(mo, str):
+        cvf = None if cov is None else np.broadcast_to(np.atleast_2d(cov), (nS, np.atleast_2d(cov).shape[1]))
+        outside_support(ctx, 'pop/' + mode, c,
+                        lambda x: (obj.compute_log_likelihood(params, x) if mode == 'elem' else
+                                   obj.compute_log_likelihood(params, x, cvf)), inp)
     if cls == 'inside':
         ctx.spec('C06.sampling_succeeds/pop/' + mode, not isinstance(c, str), inp,
                  {'chi': c if isinstance(c, str) else 'ok'})
@@ -645,13 +708,12 @@ def law_check(samples, logpdf, lo, hi, log_space=False, normalise=False, var_se=
 
 def guarded(ctx, tag, inp, f):
     """chi raising inside the support during a distribution check is a failure of the property on
-    that input (nothing can be sampled / scored), not an infrastructure problem"""
-    try:
+    that input (nothing can be sampled / scored), not an infrastructure problem (ctx.guard)"""
+    def case(ctx_, chi_, tag_, inp_):
         f()
         return True
-    except Exception as e:  # noqa
-        ctx.spec('C06.sampling_succeeds/' + tag, False, inp, {'raised': '%s: %s' % (type(e).__name__, str(e)[:200])})
-        return False
+    case.__name__ = 'law_' + tag.replace('/', '_')
+    return ctx.guard(case, ctx, None, tag, inp) is True
 
 
 def em_law(ctx, chi, rng, n, count):
@@ -839,82 +901,126 @@ def composed_law(ctx, chi, rng, n, reps):
         guarded(ctx, 'law/composed', {'rep': rep}, lambda: composed_law_one(ctx, chi, sub, n, rep))
 
 
+COMPOSITIONS = [['Gc', 'Lc'], ['Gn', 'T', 'P'], ['Lc', 'H', 'Gc'], ['T', 'Gc'], ['Gc', 'Gc', 'Lc'],
+                ['Ln', 'Gc', 'T'], ['Gc', 'P', 'Lc', 'Gn'], ['T', 'H', 'Ln']]
+FLOAT = ('Gc', 'Gn', 'Lc', 'Ln', 'T')
+
+
 def composed_law_one(ctx, chi, rng, n, rep):
-    if True:
-        n_ids = 2
-        kinds = [['Gc', 'Lc'], ['Gn', 'T', 'P'], ['Lc', 'H', 'Gc'], ['T', 'Gc']][rep % 4]
-        with_cov = rep % 2 == 1
-        subs = []
-        for j, k in enumerate(kinds):
-            subs.append(Sub(chi, rng, k, 1, n_ids, 1 if (with_cov and j == 0 and k not in ('P', 'H')) else 0))
-        obj = chi.ComposedPopulationModel([s.obj for s in subs])
-        obj.set_n_ids(n_ids)
-        params = np.concatenate([s.gen_params(rng) for s in subs])
-        for j, s in enumerate(subs):
+    """a composed model: every column against the scored density conditional on the covariates of ITS
+    sub-model, and independence across sub-models. cov_mode 2: every stochastic sub-model is
+    covariate-wrapped with its own covariate columns (>= 2 covariate sub-models whose covariates differ:
+    seeded change C06-2)"""
+    n_ids = 2
+    kinds = COMPOSITIONS[rep % len(COMPOSITIONS)]
+    cov_mode = [2, 0, 1][rep % 3]
+    subs = []
+    n_float = 0
+    for k in kinds:
+        nc = 0
+        if k in FLOAT:
+            if cov_mode == 2:
+                nc = 1 if rng.random() < 0.7 else 2
+            elif cov_mode == 1 and n_float == 0:
+                nc = 1
+            n_float += 1
+        subs.append(Sub(chi, rng, k, 1, n_ids, nc))
+    obj = chi.ComposedPopulationModel([s.obj for s in subs])
+    obj.set_n_ids(n_ids)
+    params = np.concatenate([s.gen_params(rng) for s in subs])
+    off = 0
+    for s in subs:
+        if s.kind == 'T':
+            params[off] = rng.uniform(0.8, 2.0)
+        if s.n_cov:
+            # visible covariate effect on the location (pair (0, 0)) through every covariate
+            params[off + s.n_pop:off + s.n_pop + s.n_cov] = rng.choice([-1, 1], s.n_cov) * rng.uniform(0.5, 0.9, s.n_cov)
             if s.kind == 'T':
-                off = sum(t.n_top for t in subs[:j])
-                params[off] = rng.uniform(0.4, 2.0)
-        n_cov = sum(s.n_cov for s in subs)
-        seed = int(rng.integers(0, 2 ** 31))
-        cov = None
-        groups = [np.arange(n)]
-        if n_cov:
-            # two sub-populations: even rows covariate A, odd rows covariate B
-            ca, cb = rng.uniform(-1, 1, n_cov), rng.uniform(-1, 1, n_cov)
-            cov = np.where((np.arange(n) % 2 == 0)[:, None], ca[None, :], cb[None, :])
-            groups = [np.arange(0, n, 2), np.arange(1, n, 2)]
-            params_cov = params.copy()
-            # visible covariate effect on the location of the first sub-model
-            params_cov[subs[0].n_pop] = 0.8
-            params = params_cov
-        x = np.asarray(obj.sample(params, n_samples=n, seed=seed, covariates=cov), float)
-        label = '+'.join(s.kind + ('c' if s.n_cov else '') for s in subs)
-        inp = {'model': 'ComposedPopulationModel(' + label + ')', 'parameters': params, 'n_samples': n,
-               'seed': seed, 'covariates': None if cov is None else [list(cov[0]), list(cov[1])]}
-        ctx.case('law/composed/' + label)
-        # marginals: each column against the sub-model's own scored density (conditional on covariates)
-        off = 0
-        col = 0
-        cols = []
-        for s in subs:
-            p = params[off:off + s.n_top]
-            if s.kind in ('Gc', 'Gn', 'Lc', 'Ln', 'T'):
-                mu, sd = p[0], p[1]
-                for gi, g in enumerate(groups):
-                    cv = None
-                    xs = x[g, col]
-                    mu_g = mu
-                    if s.n_cov:
-                        cv = cov[g[0]][None, :s.n_cov]
-                        mu_g = mu + float(cv[0] @ p[s.n_pop:s.n_pop + s.n_cov])
-                    elif gi > 0:
-                        continue
-                    else:
-                        xs = x[:, col]
-                    if s.kind in ('Gn', 'Ln'):
-                        lp = pop_logpdf_1d(s.obj, p, 0, np.zeros(1), cv)
-                        r = law_check(xs, lp, -10, 10, normalise=True)
-                        ctx.spec('C06.sampler_law/Composed/%s/eta' % POP_TAG[s.kind],
-                                 r['ks_ok'] and r['var_ok'] and r['mean_ok'], dict(inp, column=col), r)
-                    else:
-                        ref = np.array([math.exp(mu_g) if s.kind == 'Lc' else abs(mu_g) + 0.5])
-                        column_law(ctx, 'Composed/' + POP_TAG[s.kind] + ('/covariate' if s.n_cov else ''),
-                                   xs, s.obj, p, 0, ref, s.kind, mu_g, sd, dict(inp, column=col, group=gi), cv)
-                cols.append(col)
-            elif s.kind == 'P':
-                ctx.spec('C06.sampler_law/Composed/PooledModel', bool(np.all(x[:, col] == p[0])), inp)
-            else:
-                ctx.spec('C06.sampler_law/Composed/HeterogeneousModel', bool(np.all(np.isin(x[:, col], p))), inp)
-                cols.append(col)
-            off += s.n_top
-            col += s.n_dim
-        # independently across sub-models (within one covariate group)
-        g = groups[0]
-        for a in range(len(cols)):
-            for b in range(a):
-                rho = float(stats.spearmanr(x[g, cols[a]], x[g, cols[b]])[0])
-                ctx.spec('C06.independence/Composed', abs(rho) <= 6.5 / math.sqrt(len(g) - 1),
-                         dict(inp, columns=[cols[b], cols[a]]), {'rho': rho})
+                params[off + s.n_pop:off + s.n_pop + s.n_cov] *= 0.5
+        off += s.n_top
+    n_cov = sum(s.n_cov for s in subs)
+    seed = int(rng.integers(0, 2 ** 31))
+    cov = None
+    groups = [np.arange(n)]
+    if n_cov:
+        # two sub-populations: even rows covariates A, odd rows covariates B (all columns differ)
+        ca = rng.choice([-1, 1], n_cov) * rng.uniform(0.4, 1.0, n_cov)
+        cb = -np.sign(ca) * rng.uniform(0.4, 1.0, n_cov)
+        cov = np.where((np.arange(n) % 2 == 0)[:, None], ca[None, :], cb[None, :])
+        groups = [np.arange(0, n, 2), np.arange(1, n, 2)]
+    x = np.asarray(obj.sample(params, n_samples=n, seed=seed, covariates=cov), float)
+    label = '+'.join(s.kind + ('c%d' % s.n_cov if s.n_cov else '') for s in subs)
+    inp = {'model': 'ComposedPopulationModel(' + label + ')', 'parameters': params, 'n_samples': n,
+           'seed': seed, 'covariates': None if cov is None else [list(cov[0]), list(cov[1])]}
+    ctx.case('law/composed/' + label, nontrivial='law/composed/%s/cov%d' % (label, cov_mode))
+    all_float = all(s.kind in FLOAT for s in subs)
+    # location / scale of every column for each covariate group
+    off = col = co = 0
+    cols = []
+    for s in subs:
+        p = params[off:off + s.n_top]
+        if s.kind in FLOAT:
+            for gi, g in enumerate(groups):
+                if not s.n_cov and gi > 0:
+                    continue
+                xs = x[g, col] if s.n_cov else x[:, col]
+                cv_own = None
+                mu_g, sd_g = p[0], p[1]
+                if s.n_cov:
+                    cv_own = cov[g[0]][None, co:co + s.n_cov]
+                    mu_g = p[0] + float(cv_own[0] @ p[s.n_pop:s.n_pop + s.n_cov])
+                    sd_g = p[1] + float(cv_own[0] @ p[s.n_pop + s.n_cov:s.n_pop + 2 * s.n_cov])
+                tag = 'Composed/' + POP_TAG[s.kind] + ('/covariate' if s.n_cov else '')
+                cinp = dict(inp, column=col, group=gi)
+                if all_float:
+                    # the density the COMPOSED log-likelihood scores for this column (one individual,
+                    # the other columns held fixed), conditional on the full covariate row of the group
+                    ref = composed_ref(subs, params, None if cov is None else cov[g[0]])
+                    cvf = None if cov is None else cov[g[0]][None, :]
+                    lp = pop_logpdf_1d(obj, params, col, ref, cvf)
+                else:
+                    ref = np.array([0.0 if s.kind in ('Gn', 'Ln') else
+                                    (math.exp(mu_g) if s.kind == 'Lc' else abs(mu_g) + 0.5)])
+                    lp = pop_logpdf_1d(s.obj, p, 0, ref, cv_own)
+                if s.kind in ('Gn', 'Ln'):
+                    r = law_check(xs, lp, -10, 10, normalise=True)
+                    ctx.spec('C06.sampler_law/%s/eta' % tag, r['ks_ok'] and r['var_ok'] and r['mean_ok'], cinp, r)
+                else:
+                    lo, hi, logsp = elem_range(s.kind, mu_g, sd_g)
+                    r = law_check(xs, lp, lo, hi, log_space=logsp, normalise=True, var_se=8.0 if logsp else 6.5)
+                    ctx.spec('C06.sampler_mean/' + tag, r['mean_ok'], cinp, r)
+                    ctx.spec('C06.sampler_law/' + tag, r['ks_ok'] and r['var_ok'], cinp, r)
+            cols.append(col)
+        elif s.kind == 'P':
+            ctx.spec('C06.sampler_law/Composed/PooledModel', bool(np.all(x[:, col] == p[0])), inp)
+        else:
+            ctx.spec('C06.sampler_law/Composed/HeterogeneousModel', bool(np.all(np.isin(x[:, col], p))), inp)
+            cols.append(col)
+        off += s.n_top
+        col += s.n_dim
+        co += s.n_cov
+    # independently across sub-models (within one covariate group)
+    g = groups[0]
+    for a in range(len(cols)):
+        for b in range(a):
+            rho = float(stats.spearmanr(x[g, cols[a]], x[g, cols[b]])[0])
+            ctx.spec('C06.independence/Composed', abs(rho) <= 6.5 / math.sqrt(len(g) - 1),
+                     dict(inp, columns=[cols[b], cols[a]]), {'rho': rho})
+
+
+def composed_ref(subs, params, cov_row):
+    """a point inside the support of every column (all sub-models Gaussian / log-normal / truncated)"""
+    ref = []
+    off = co = 0
+    for s in subs:
+        p = params[off:off + s.n_top]
+        mu = p[0]
+        if s.n_cov:
+            mu = p[0] + float(np.asarray(cov_row)[co:co + s.n_cov] @ p[s.n_pop:s.n_pop + s.n_cov])
+        ref.append(0.0 if s.kind in ('Gn', 'Ln') else (math.exp(mu) if s.kind == 'Lc' else abs(mu) + 0.5))
+        off += s.n_top
+        co += s.n_cov
+    return np.array(ref)
 
 
 def witness(ctx, chi):
@@ -967,23 +1073,22 @@ def run(ctx):
     chi = core.import_chi()
     verify_identities(ctx.seed)
     quick = ctx.tier == 'quick'
-    corpus(ctx, chi)
-    guarded(ctx, 'witness', {}, lambda: witness(ctx, chi))
-    for i in range(300 if quick else 3000):
-        run_em_case(ctx, chi, ctx.sub_rng(i), i)
-    for i in range(50 if quick else 400):
-        run_reduced_em(ctx, chi, ctx.sub_rng(100000 + i))
-    for i in range(450 if quick else 5000):
-        run_pop_case(ctx, chi, ctx.sub_rng(200000 + i), i)
-    for i in range(50 if quick else 400):
-        run_reduced_pop(ctx, chi, ctx.sub_rng(300000 + i))
-    for i in range(12 if quick else 150):
-        sub = ctx.sub_rng(400000 + i)
-        guarded(ctx, 'moments', {'case': i}, lambda: run_moments(ctx, chi, sub, 1))
+    ctx.guard(corpus, ctx, chi)
+    ctx.guard(witness, ctx, chi)
+    for i in range(300 if quick else 6000):
+        ctx.guard(run_em_case, ctx, chi, ctx.sub_rng(i), i)
+    for i in range(50 if quick else 800):
+        ctx.guard(run_reduced_em, ctx, chi, ctx.sub_rng(100000 + i))
+    for i in range(450 if quick else 12000):
+        ctx.guard(run_pop_case, ctx, chi, ctx.sub_rng(200000 + i), i)
+    for i in range(50 if quick else 800):
+        ctx.guard(run_reduced_pop, ctx, chi, ctx.sub_rng(300000 + i))
+    for i in range(12 if quick else 300):
+        ctx.guard(run_moments, ctx, chi, ctx.sub_rng(400000 + i), 1)
     n = 20000 if quick else 100000
-    em_law(ctx, chi, ctx.sub_rng(500000), n, 8 if quick else 48)
-    pop_law(ctx, chi, ctx.sub_rng(600000), n, 4 if quick else 12)
-    composed_law(ctx, chi, ctx.sub_rng(700000), n, 4 if quick else 16)
+    em_law(ctx, chi, ctx.sub_rng(500000), n, 8 if quick else 64)
+    pop_law(ctx, chi, ctx.sub_rng(600000), n, 4 if quick else 16)
+    composed_law(ctx, chi, ctx.sub_rng(700000), n, 6 if quick else 48)
 
 
 def replay(ctx, data):
